@@ -55,7 +55,7 @@ def is_cart(sig):
 
 
 # --------------------------------------------------------------------------------------------- symbolic operands
-def mk_operand(tag, classes, tau_case="nonneg", offaxis=None):
+def mk_operand(tag, classes, tau_case="nonneg", offaxis=None, t_case=None):
     """fresh symbolic stored coordinates of one vector satisfying rep; returns list of coordinate values"""
     ctx = S.CTX
     out = []
@@ -102,7 +102,12 @@ def mk_operand(tag, classes, tau_case="nonneg", offaxis=None):
             out.append(Lg([(Fr(1), A.var(E))]))
     if len(classes) >= 3:
         if classes[2] is TemporalT:
-            t = ctx.new(f"t{tag}"); desc["vars"]["t"] = t
+            t = ctx.new(f"t{tag}", {"nonneg": "0+", "neg": "-"}.get(t_case)); desc["vars"]["t"] = t
+            if t_case == "nonneg":
+                ctx.hyp(f_rel(Poly.var(t), ">="), pre=True)
+            elif t_case == "neg":
+                ctx.hyp(f_rel(Poly.var(t), "<"), pre=True)
+            desc["t_case"] = t_case
             out.append(A.var(t))
         else:
             if tau_case == "nonneg":
@@ -289,6 +294,10 @@ def sample_inputs(ctx, rng, style="generic"):
             env[vs["eta"]] = mp.exp(mp.mpf(rng.gauss(0, 1.2)))
         if "t" in vs:
             env[vs["t"]] = real() * 2
+            if d.get("t_case") == "nonneg":
+                env[vs["t"]] = abs(env[vs["t"]])
+            elif d.get("t_case") == "neg":
+                env[vs["t"]] = -abs(env[vs["t"]]) - mp.mpf("0.01")
         if "tau" in vs:
             c = d.get("tau_case", "nonneg")
             env[vs["tau"]] = (pos() if c in ("nonneg", "pos") else -pos() * mp.mpf("0.3"))
